@@ -255,8 +255,11 @@ inline EdgeOut rhumb_edge_direct(const Env& env, Ctx& c, const RV& A, double azi
   ref::RhumbDir<LD> r;
   try { r = env.RR->direct((LD)A.lat, (LD)A.lon, (LD)azi, (LD)s); }
   catch (const std::runtime_error& ex) { o.st = E_FAIL; o.why = ex.what(); ++c.events["ref: rhumb reference threw"]; return o; }
-  if (crossed) *crossed = r.crossed || r.at_pole || (r.from_pole && s != 0);
-  if (r.crossed || r.at_pole || (r.from_pole && s != 0)) { o.st = E_AMBIG; o.why = "rhumb course reaches or leaves a pole (longitude indeterminate, documented)"; return o; }
+  // a course that comes within 1e-7 deg (rectifying latitude) of a pole is treated like one that reaches it: the library's own
+  // decision |mu2| <= 90 is taken in double and may differ there, and beyond the pole the longitude is NaN by documentation
+  bool polar = r.crossed || r.at_pole || (r.from_pole && s != 0) || !(fabsl(r.mu2) <= 90 - (LD)1e-7);
+  if (crossed) *crossed = polar;
+  if (polar) { o.st = E_AMBIG; o.why = "rhumb course reaches or leaves a pole (longitude indeterminate, documented)"; return o; }
   o.I = -r.S12 / env.E.c2; o.dlam = r.lon12 * D; o.len = fabsl((LD)s);
   o.rheq = env.be == B_RH_EXACT && env.f < 0 && ((std::fabs(A.lat) < 1e-8 && A.lat != 0) || (Bstored && std::fabs(Bstored->lat) < 1e-8 && Bstored->lat != A.lat) || fabsl(r.lat2) < 1e-8);
   o.extra_tol = 8 * std::numeric_limits<double>::epsilon() * std::max<LD>(o.len, (LD)env.a * fabsl(o.dlam));
